@@ -856,7 +856,7 @@ def make_canary(gen, only=None):
         last = gen.fn_lines[f][1]
         # find the line with the opening `{` of the body = first line equal to "{" after `first`
         for n in range(first, last + 1):
-            if lines[n - 1] == "{":
+            if lines[n - 1].strip() == "{":
                 inject_at[n] = f
                 break
     for n, ln in enumerate(lines, 1):
